@@ -114,10 +114,15 @@ func runCase(t *rapid.T, e node) {
 		}
 		prev = st
 	}
+	infoNext := false
 	finish := func(i int, status int) {
 		f := d.InFlight[i]
 		now := d.Now
-		d.Finish(i, status)
+		if infoNext {
+			d.Finish(i, status, 103) // Early Hints first: the recorded response is still the final one
+		} else {
+			d.Finish(i, status)
+		}
 		recs = append(recs, rec{at: now, status: status, latency: now - f.Started})
 		st := d.State()
 		// is this completion an evaluation point?
@@ -198,7 +203,9 @@ func runCase(t *rapid.T, e node) {
 			start()
 		case 3, 4, 5:
 			if len(d.InFlight) > 0 {
+				infoNext = rapid.IntRange(0, 4).Draw(t, "earlyHints") == 0
 				finish(rapid.IntRange(0, len(d.InFlight)-1).Draw(t, "which"), rapid.SampledFrom(statuses).Draw(t, "status"))
+				infoNext = false
 			} else {
 				start()
 			}
